@@ -104,9 +104,10 @@ PROPS["C15"] = {
 PROPS["C13"] = {
     "skeleton_fns": EQUAL + ["httpserver_Runner_Reload", "httpserver_Runner_reloadConfig", "httpserver_Runner_boot", "httpserver_Runner_stopServer"],
     "lean_modules": ["GoSup.Props.C13"],
-    "theorems": [],
+    "theorems": ["GoSup.Props.C13.routesEqual_iff", "GoSup.Props.C13.configEqual_iff", "GoSup.Props.C13.configEqual_symm",
+                 "GoSup.Props.C13.c13_reload"],
     "ties": [],
-    "legs": [{"name": "equal", "cmd": "equal"}],
+    "legs": [{"name": "equal", "cmd": "equal"}, {"name": "httpsrv", "cmd": "httpsrv"}],
     "rule": "pairs (active, new) of configurations: a seeded base configuration (1-4 routes, names incl. ones with spaces, "
             "mux-style paths) and 1-3 mutations drawn from {addr, each timeout, one name, one path, order, swap two names, add, drop} "
             "or an independent configuration, both argument orders; Config.Equal vs the model, and Spec.C13.holdsEqual on the "
@@ -269,3 +270,38 @@ for _pid, _thms, _text in [
         "design_ref": "DESIGN.md section 5, " + _pid,
     }
 PROPS["C11"]["rule"] += " " + COMP_RULE
+
+HTTP_RULE = ("histories on the real httpserver.Runner over loopback TCP (ephemeral ports): an initial configuration (1-3 routes whose "
+             "handlers answer with their own name) and 1-4 operations - Reload with an unchanged / permuted / changed configuration "
+             "(address, drain timeout, read timeout, routes, two names swapped), callback error, nil, an address held by a foreign "
+             "listener; Stop; context cancel; 1-3 in-flight requests lasting 0.2x/0.5x/1.8x/3x the drain timeout followed by Stop, "
+             "cancel or a changed-config reload; a Stop/cancel racing an address-changing reload at 0-110 ms. Observed: server "
+             "creations through the public ServerCreator hook, a probe (dial + every route) whenever Running is reported, re-binding "
+             "of every address after Run returned, request outcomes and durations, the state stream of a subscriber. Oracles: "
+             "Spec.Http.holdsC12/C13/C14/C08; sequential histories are replayed on the operation-level model HttpSeq. "
+             "Non-trivial = at least one reload or in-flight request; distinct by the event trace.")
+PROPS["C13"]["rule"] += " " + HTTP_RULE
+for _pid, _thms, _text in [
+    ("C12", ["GoSup.Props.C12.c12_running", "GoSup.Props.C12.c12_released"],
+     "Invariant proof over the operation-level model for histories of any length: Running => own instance bound and serving the "
+     "held configuration; returned => nothing bound. TCP reachability and immediate re-binding are kernel facts: measured on every "
+     "run by the harness (partial by nature, DESIGN.md section 6)."),
+    ("C14", ["GoSup.Props.C14.c14_stop", "GoSup.Props.C14.c14_stop_no_instance"],
+     "Decision-logic theorems for stopServer/shutdown from every state (in-time drain => nil/Stopped, timed-out drain => "
+     "ErrGracefulShutdownTimeout/Error, nothing left listening). The wall-clock bounds and full responses are measured by the "
+     "harness with in-flight requests around the drain timeout (partial by nature)."),
+]:
+    PROPS[_pid] = {
+        "skeleton_fns": HTTPSERVER,
+        "lean_modules": ["GoSup.Props." + _pid],
+        "theorems": _thms,
+        "ties": [],
+        "legs": [{"name": "httpsrv", "cmd": "httpsrv"}],
+        "rule": HTTP_RULE,
+        "assumptions": ["net/http.Server.ListenAndServe/Shutdown contract and the kernel's TCP stack are modelled by an abstract port table",
+                        "timing assertions use a +/-40% band around the drain timeout and 150-400 ms scheduling slack"],
+        "trusted_base": [],
+        "level_text": _text,
+        "level_note": COMMON_NOTE + "Partial by nature: wall-clock and kernel behaviour enter as assumptions and are sampled.",
+        "design_ref": "DESIGN.md section 5, " + _pid,
+    }
